@@ -192,11 +192,14 @@ Fixpoint fan_out (caps : list conn) (nfds : N) (rcpts : list conn) : list conn :
   | d :: rest => if fd_ok caps nfds d then d :: fan_out caps nfds rest else fan_out caps nfds rest
   end.
 
-Definition dispatch (ns : names) (mk : mm) (caps : list conn) (c : conn) (m : msg) (nfds : N) : option routing :=
+(* [rcp] = bus_matchmaker_get_recipients of whatever matchmaker representation is used (the flat list of this
+   file, or the indexed pools of Match/Index.v) *)
+Definition dispatch_with (rcp : option conn -> option conn -> msg -> option (list conn))
+           (ns : names) (caps : list conn) (c : conn) (m : msg) (nfds : N) : option routing :=
   match m_dest m with
   | None =>
       if m_type m =? DBUS_MESSAGE_TYPE_SIGNAL then
-        match get_recipients ns mk (Some c) None m with
+        match rcp (Some c) None m with
         | None => None
         | Some l => Some (RDelivered (fan_out caps nfds l))
         end
@@ -208,12 +211,15 @@ Definition dispatch (ns : names) (mk : mm) (caps : list conn) (c : conn) (m : ms
       | Some a =>
           if negb (valid_type (m_type m)) then Some RRejected else
           if negb (fd_ok caps nfds a) then Some RRefusedFds else
-          match get_recipients ns mk (Some c) (Some a) m with
+          match rcp (Some c) (Some a) m with
           | None => None
           | Some l => Some (RDelivered (a :: fan_out caps nfds l))
           end
       end
   end.
+
+Definition dispatch (ns : names) (mk : mm) (caps : list conn) (c : conn) (m : msg) (nfds : N) : option routing :=
+  dispatch_with (get_recipients ns mk) ns caps c m nfds.
 
 (* ---- the small world the end-to-end correspondence drives ------------------------------------------- *)
 Definition S_driver_path : bytes := [47;111;114;103;47;102;114;101;101;100;101;115;107;116;111;112;47;68;66;117;115].
@@ -222,23 +228,16 @@ Definition S_AddMatch : bytes := [65;100;100;77;97;116;99;104].
 Definition S_RemoveMatch : bytes := [82;101;109;111;118;101;77;97;116;99;104].
 Definition S_RequestName : bytes := [82;101;113;117;101;115;116;78;97;109;101].
 Definition S_Hello : bytes := [72;101;108;108;111].
+Definition S_ReleaseName : bytes := [82;101;108;101;97;115;101;78;97;109;101].
 
 (* a signal emitted by the driver itself: sender NULL, no addressed recipient *)
 Definition name_owner_changed (name old new : bytes) : msg :=
   mkMsg DBUS_MESSAGE_TYPE_SIGNAL (Some S_driver_path) (Some S_org_freedesktop_DBus) (Some S_NameOwnerChanged) None
         [AStr name; AStr old; AStr new].
 
-Definition driver_broadcast (ns : names) (mk : mm) (m : msg) : option (list conn) := get_recipients ns mk None None m.
-
 (* a method call to the driver as the test client sends it *)
 Definition driver_call (member : bytes) (args : list marg) : msg :=
   mkMsg DBUS_MESSAGE_TYPE_METHOD_CALL (Some S_driver_path) (Some S_org_freedesktop_DBus) (Some member) (Some S_org_freedesktop_DBus) args.
-
-(* bus_dispatch: after bus_driver_handle_message succeeded the call itself is matched (eavesdroppers) *)
-Definition after_driver_call (ns : names) (mk : mm) (c : conn) (m : msg) : option (list conn) :=
-  get_recipients ns mk (Some c) None m.
-
-Record world := mkWorld { w_mm : mm; w_names : names; w_caps : list conn (* negotiated NEGOTIATE_UNIX_FD *) }.
 
 Definition unique_of (ns : names) (c : conn) : bytes :=
   match find (fun p => (snd p =? c) && starts_with_colon (fst p)) ns with
@@ -248,7 +247,8 @@ Definition unique_of (ns : names) (c : conn) : bytes :=
 
 Inductive event :=
 | EvHello (c : conn) (unique : bytes) (fdcap : bool)
-| EvOwn (c : conn) (name : bytes)              (* RequestName on a name nobody owns *)
+| EvOwn (c : conn) (name : bytes)              (* RequestName, flags 0: primary owner, or queued behind the current one *)
+| EvRelease (c : conn) (name : bytes)          (* ReleaseName *)
 | EvAdd (c : conn) (text : bytes)
 | EvRemove (c : conn) (text : bytes)
 | EvSend (c : conn) (m : msg) (nfds : N)
@@ -256,83 +256,159 @@ Inductive event :=
 
 Inductive output :=
 | OSignal (rcpts : list conn)                           (* recipients of the NameOwnerChanged broadcast *)
+| OOwn (code : N) (rcpts : list conn)                   (* RequestName / ReleaseName reply code + NameOwnerChanged recipients *)
 | OReply (r : reply)
 | ORouting (r : routing)
-| OSignals (l : list (bytes * list conn)).              (* disconnect: one broadcast per released name *)
+| OSignals (l : list (bytes * list conn)).              (* disconnect: one broadcast per name whose primary owner left *)
 
-(* names released by a disconnect, in the order bus_connection_disconnected releases them *)
+(* ---- name table bookkeeping (bus/services.c, only as far as match rules see it) ---------------------------
+   [names] lists (name, connection) in the order of acquisition: the first entry of a name is its primary
+   owner (owner_of), later entries are the queue.  These functions only say how the table changes and which
+   NameOwnerChanged signal the driver broadcasts; who receives it is the matchmaker's business. *)
+Definition has_entry (ns : names) (name : bytes) (c : conn) : bool :=
+  existsb (fun p => bytes_eqb (fst p) name && (snd p =? c)) ns.
+
+(* RequestName with flags 0: reply code (1 primary owner, 2 in queue, 4 already owner), new table, broadcast *)
+Definition own_plan (ns : names) (c : conn) (name : bytes) : N * names * option msg :=
+  match owner_of ns name with
+  | None => (1, ns ++ [(name, c)], Some (name_owner_changed name [] (unique_of ns c)))
+  | Some o => if o =? c then (4, ns, None)
+              else if has_entry ns name c then (2, ns, None)
+              else (2, ns ++ [(name, c)], None)
+  end.
+
+(* one (name, connection) entry goes away (ReleaseName, or the connection left): if it was the primary owner the
+   next in the queue takes over and the change is broadcast *)
+Definition release_one (ns : names) (c : conn) (unique : bytes) (n : bytes) : names * option msg :=
+  let ns' := filter (fun p => negb (bytes_eqb (fst p) n && (snd p =? c))) ns in
+  (ns', match owner_of ns n with
+        | Some o => if o =? c
+                    then Some (name_owner_changed n unique (match owner_of ns' n with Some o' => unique_of ns' o' | None => [] end))
+                    else None
+        | None => None
+        end).
+
+(* ReleaseName reply code: 1 released, 2 non-existent, 3 not owner *)
+Definition release_code (ns : names) (c : conn) (name : bytes) : N :=
+  if has_entry ns name c then 1 else match owner_of ns name with None => 2 | Some _ => 3 end.
+
+(* names given up by a disconnect, in the order bus_connection_disconnected walks services_owned *)
 Definition released_names (ns : names) (c : conn) : list bytes :=
   let mine := map fst (filter (fun p => snd p =? c) ns) in
   let wk := filter (fun n => negb (starts_with_colon n)) mine in
   let un := filter starts_with_colon mine in
   rev wk ++ un.
 
-Fixpoint release_all (ns : names) (mk : mm) (unique : bytes) (l : list bytes) (acc : list (bytes * list conn))
-  : option (names * list (bytes * list conn)) :=
-  match l with
-  | [] => Some (ns, rev acc)
-  | n :: rest =>
-      let ns' := filter (fun p => negb (bytes_eqb (fst p) n)) ns in
-      match driver_broadcast ns' mk (name_owner_changed n unique []) with
-      | None => None
-      | Some rc => release_all ns' mk unique rest ((n, rc) :: acc)
-      end
-  end.
+(* ---- the world, generic in the representation of the matchmaker ------------------------------------------- *)
+Section World.
+  Variable M : Type.
+  (* bus_matchmaker_get_recipients, AddMatch, RemoveMatch, the rule part of bus_connection_disconnected *)
+  Variable rcp : names -> M -> option conn -> option conn -> msg -> option (list conn).
+  Variable add_match : N -> bool -> M -> conn -> bytes -> M * reply.
+  Variable remove_match : M -> conn -> bytes -> M * reply.
+  Variable disconnect : M -> conn -> bytes -> M.
 
-(* None = the daemon performed an out-of-bounds read (Fault) while handling the event *)
-Definition step (limit : N) (w : world) (e : event) : option (world * output) :=
-  match e with
-  | EvHello c unique fdcap =>
-      let ns := w_names w ++ [(unique, c)] in
-      let caps := if fdcap then c :: w_caps w else w_caps w in
-      match driver_broadcast ns (w_mm w) (name_owner_changed unique [] unique) with
-      | None => None
-      | Some rc =>
-          match after_driver_call ns (w_mm w) c (driver_call S_Hello []) with
-          | None => None
-          | Some _ => Some (mkWorld (w_mm w) ns caps, OSignal rc)
-          end
-      end
-  | EvOwn c name =>
-      let ns := w_names w ++ [(name, c)] in
-      match driver_broadcast ns (w_mm w) (name_owner_changed name [] (unique_of (w_names w) c)) with
-      | None => None
-      | Some rc =>
-          match after_driver_call ns (w_mm w) c (driver_call S_RequestName [AStr name; AOther]) with
-          | None => None
-          | Some _ => Some (mkWorld (w_mm w) ns (w_caps w), OSignal rc)
-          end
-      end
-  | EvAdd c text =>
-      let (mk', rep) := handle_add_match limit true (w_mm w) c text in
-      match rep with
-      | RepOk =>
-          match after_driver_call (w_names w) mk' c (driver_call S_AddMatch [AStr text]) with
-          | None => None
-          | Some _ => Some (mkWorld mk' (w_names w) (w_caps w), OReply rep)
-          end
-      | _ => Some (mkWorld mk' (w_names w) (w_caps w), OReply rep)
-      end
-  | EvRemove c text =>
-      let (mk', rep) := handle_remove_match (w_mm w) c text in
-      match rep with
-      | RepOk =>
-          match after_driver_call (w_names w) mk' c (driver_call S_RemoveMatch [AStr text]) with
-          | None => None
-          | Some _ => Some (mkWorld mk' (w_names w) (w_caps w), OReply rep)
-          end
-      | _ => Some (mkWorld mk' (w_names w) (w_caps w), OReply rep)
-      end
-  | EvSend c m nfds =>
-      match dispatch (w_names w) (w_mm w) (w_caps w) c m nfds with
-      | None => None
-      | Some r => Some (w, ORouting r)
-      end
-  | EvDisconnect c =>
-      let unique := unique_of (w_names w) c in
-      let mk' := handle_disconnect (w_mm w) c unique in
-      match release_all (w_names w) mk' unique (released_names (w_names w) c) [] with
-      | None => None
-      | Some (ns', l) => Some (mkWorld mk' ns' (w_caps w), OSignals l)
-      end
-  end.
+  Record gworld := mkWorld { w_mm : M; w_names : names; w_caps : list conn (* negotiated NEGOTIATE_UNIX_FD *) }.
+
+  (* a signal emitted by the driver itself: sender NULL, no addressed recipient *)
+  Definition driver_broadcast_with (ns : names) (mk : M) (m : msg) : option (list conn) := rcp ns mk None None m.
+
+  (* bus_dispatch: after bus_driver_handle_message succeeded the call itself is matched (eavesdroppers) *)
+  Definition after_driver_call_with (ns : names) (mk : M) (c : conn) (m : msg) : option (list conn) := rcp ns mk (Some c) None m.
+
+  Fixpoint release_all_with (ns : names) (mk : M) (c : conn) (unique : bytes) (l : list bytes) (acc : list (bytes * list conn))
+    : option (names * list (bytes * list conn)) :=
+    match l with
+    | [] => Some (ns, rev acc)
+    | n :: rest =>
+        match release_one ns c unique n with
+        | (ns', None) => release_all_with ns' mk c unique rest acc
+        | (ns', Some sig) =>
+            match driver_broadcast_with ns' mk sig with
+            | None => None
+            | Some rc => release_all_with ns' mk c unique rest ((n, rc) :: acc)
+            end
+        end
+    end.
+
+  (* None = the daemon performed an out-of-bounds read (Fault) while handling the event *)
+  Definition step_with (limit : N) (w : gworld) (e : event) : option (gworld * output) :=
+    match e with
+    | EvHello c unique fdcap =>
+        let ns := w_names w ++ [(unique, c)] in
+        let caps := if fdcap then c :: w_caps w else w_caps w in
+        match driver_broadcast_with ns (w_mm w) (name_owner_changed unique [] unique) with
+        | None => None
+        | Some rc =>
+            match after_driver_call_with ns (w_mm w) c (driver_call S_Hello []) with
+            | None => None
+            | Some _ => Some (mkWorld (w_mm w) ns caps, OSignal rc)
+            end
+        end
+    | EvOwn c name =>
+        let '(code, ns, sig) := own_plan (w_names w) c name in
+        match (match sig with Some s => driver_broadcast_with ns (w_mm w) s | None => Some [] end) with
+        | None => None
+        | Some rc =>
+            match after_driver_call_with ns (w_mm w) c (driver_call S_RequestName [AStr name; AOther]) with
+            | None => None
+            | Some _ => Some (mkWorld (w_mm w) ns (w_caps w), OOwn code rc)
+            end
+        end
+    | EvRelease c name =>
+        let code := release_code (w_names w) c name in
+        let (ns, sig) := release_one (w_names w) c (unique_of (w_names w) c) name in
+        match (match sig with Some s => driver_broadcast_with ns (w_mm w) s | None => Some [] end) with
+        | None => None
+        | Some rc =>
+            match after_driver_call_with ns (w_mm w) c (driver_call S_ReleaseName [AStr name]) with
+            | None => None
+            | Some _ => Some (mkWorld (w_mm w) ns (w_caps w), OOwn code rc)
+            end
+        end
+    | EvAdd c text =>
+        let (mk', rep) := add_match limit true (w_mm w) c text in
+        match rep with
+        | RepOk =>
+            match after_driver_call_with (w_names w) mk' c (driver_call S_AddMatch [AStr text]) with
+            | None => None
+            | Some _ => Some (mkWorld mk' (w_names w) (w_caps w), OReply rep)
+            end
+        | _ => Some (mkWorld mk' (w_names w) (w_caps w), OReply rep)
+        end
+    | EvRemove c text =>
+        let (mk', rep) := remove_match (w_mm w) c text in
+        match rep with
+        | RepOk =>
+            match after_driver_call_with (w_names w) mk' c (driver_call S_RemoveMatch [AStr text]) with
+            | None => None
+            | Some _ => Some (mkWorld mk' (w_names w) (w_caps w), OReply rep)
+            end
+        | _ => Some (mkWorld mk' (w_names w) (w_caps w), OReply rep)
+        end
+    | EvSend c m nfds =>
+        match dispatch_with (rcp (w_names w) (w_mm w)) (w_names w) (w_caps w) c m nfds with
+        | None => None
+        | Some r => Some (w, ORouting r)
+        end
+    | EvDisconnect c =>
+        let unique := unique_of (w_names w) c in
+        let mk' := disconnect (w_mm w) c unique in
+        match release_all_with (w_names w) mk' c unique (released_names (w_names w) c) [] with
+        | None => None
+        | Some (ns', l) => Some (mkWorld mk' ns' (w_caps w), OSignals l)
+        end
+    end.
+End World.
+
+Arguments mkWorld {M}.
+Arguments w_mm {M}.
+Arguments w_names {M}.
+Arguments w_caps {M}.
+
+(* the flat instance *)
+Definition world := gworld mm.
+Definition driver_broadcast := driver_broadcast_with mm get_recipients.
+Definition after_driver_call := after_driver_call_with mm get_recipients.
+Definition step : N -> world -> event -> option (world * output) :=
+  step_with mm get_recipients handle_add_match handle_remove_match handle_disconnect.
